@@ -1128,11 +1128,17 @@ func (p *Parser) evaluateVarDefinition(ctx context) (Statement, error) {
 			return nil, p.atError(fmt.Sprintf(`variable "%s" already exists but has type %s`, name, variableValueType.String()), nextToken)
 		}
 		storedName := name
+		valueType := specifiedType
 
 		if global {
 			storedName = buildPrefixedName(prefix, name)
 		}
-		variables = append(variables, NewVariable(storedName, specifiedType, global, isPublic(name)))
+
+		// A variable which is defined again at its own level keeps its type, the assigned value has to fit.
+		if exists && variable.Global() == global {
+			valueType = variableValueType
+		}
+		variables = append(variables, NewVariable(storedName, valueType, global, isPublic(name)))
 	}
 	values := []Expression{}
 
